@@ -189,3 +189,50 @@ Proof. exact T_ex_call. Qed.
 Example C15_ex_cdf : cdf_fn (fun _ => 1 # 2) (fun z => z) (fun z => z) Relu6 RMean 1 1 None [1; 1 # 2]
     [[[0]; [1]]; [[0]; [0]]] (Some [[[2]]; [[2]]]) = Some [[192 # 1152]].
 Proof. exact T_ex_cdf. Qed.
+
+(* ---- pwl_calibration_fn: totality at the function level ------------------------------ *)
+(* C15_param_sizes is about the size check only; pwl_fn has one more way to return
+   None, the broadcasting test.  For tensors of the documented shapes
+     inputs (batch, 1) or (batch, units);
+     keypoint_input_parameters None, rank 2, or (1 or batch, 1 or units, size);
+     keypoint_output_parameters in a form the size check lets through;
+     every batch axis non-empty and equal to 1 or to a common B
+   the WHOLE function returns a value exactly for the documented output_param_size. *)
+From TFL Require Import Proofs.CondPWLTotal.
+
+Theorem C15_pwl_fn_total : forall sm sg c inputs kip kop,
+  cfg_valid c -> kop_form_ok c kop -> kip_doc_form c kip -> inputs_doc_form c inputs ->
+  nonempty_batch inputs kip kop -> batch_bcast inputs kip kop ->
+  ((exists out, pwl_fn sm sg c inputs kip kop = Some out) <->
+   (Z.of_nat (plast kop) = doc_output_size c (num_keypoints kip) /\ (0 < doc_output_size c (num_keypoints kip))%Z)).
+Proof. exact T_pwl_fn_total. Qed.
+Print Assumptions C15_pwl_fn_total.
+
+(* The exact domain of the function (no hypothesis on the configuration or the
+   forms): a value is returned iff the size check accepts AND the shapes are the
+   documented broadcastable ones; nothing else makes the model return None. *)
+Theorem C15_pwl_fn_total_iff : forall sm sg c inputs kip kop, nonempty_batch inputs kip kop ->
+  ((exists out, pwl_fn sm sg c inputs kip kop = Some out) <->
+   (verify c inputs kip kop = true /\ batch_bcast inputs kip kop
+    /\ kip_doc_form c kip /\ inputs_doc_form c inputs)).
+Proof. exact T_pwl_fn_total_iff. Qed.
+Print Assumptions C15_pwl_fn_total_iff.
+
+(* ... and the value has the documented shape (broadcast batch, units). *)
+Theorem C15_pwl_fn_shape : forall sm sg c inputs kip kop out, pwl_fn sm sg c inputs kip kop = Some out ->
+  length out = Nat.max (length inputs) (Nat.max (kip_blen kip) (blen kop))
+  /\ forall row, In row out -> length row = p_units c.
+Proof. exact T_pwl_fn_shape. Qed.
+Print Assumptions C15_pwl_fn_shape.
+
+(* hypotheses of C15_pwl_fn_total are satisfiable: units = 2, batch 3, inputs (3,1),
+   keypoint_input_parameters (1,1,1), keypoint_output_parameters (3,2,2), cyclic *)
+Example C15_ex_total :
+  cfg_valid ex_total_c /\ kop_form_ok ex_total_c ex_total_kop /\ kip_doc_form ex_total_c ex_total_kip
+  /\ inputs_doc_form ex_total_c ex_total_inputs /\ nonempty_batch ex_total_inputs ex_total_kip ex_total_kop
+  /\ batch_bcast ex_total_inputs ex_total_kip ex_total_kop
+  /\ Z.of_nat (plast ex_total_kop) = doc_output_size ex_total_c (num_keypoints ex_total_kip)
+  /\ rect_kip ex_total_kip /\ rect_kop ex_total_kop
+  /\ exists out, pwl_fn ex_softmax (fun _ => 1 # 2) ex_total_c ex_total_inputs ex_total_kip ex_total_kop = Some out
+       /\ length out = 3%nat.
+Proof. exact T_ex_total. Qed.
